@@ -843,3 +843,34 @@ func storedFields(p []PE) []*types.Var {
 	}
 	return out
 }
+
+// alwaysCalls: every path through fn (a module function with a body) that
+// returns passes a call of target, directly or through a function that always
+// does.
+func (m *Module) alwaysCalls(fn, target *ssa.Function, depth int) bool {
+	if fn == nil || len(fn.Blocks) == 0 || depth > 3 {
+		return false
+	}
+	g := scanIG(m, fn, nil)
+	is := func(n int) bool {
+		if m.callsTo(g.Ins[n], target) {
+			return true
+		}
+		if cc := callCommon(g.Ins[n]); cc != nil {
+			if cal := m.callee(cc); cal != nil && cal != fn && cal != target {
+				return m.alwaysCalls(cal, target, depth+1)
+			}
+		}
+		return false
+	}
+	rets := g.Returns()
+	if len(rets) == 0 {
+		return false
+	}
+	for _, rn := range rets {
+		if ok, _ := g.MustPassBefore(rn, is); !ok {
+			return false
+		}
+	}
+	return true
+}
